@@ -335,6 +335,38 @@ def r5b_replace_all_by_occurrence(rep, src):
             rep.ok('C10.R5', fn.site, what, '→ %s' % ' '.join(order))
 
 
+def r5c_replace_one_by_occurrence(rep, src):
+    """replacing ONE occurrence of a duplicated field by the element of another occurrence of it: an element stands at one place of
+    the paragraph, so it moves -- afterwards it is at the addressed position only, attached to the paragraph, and the other fields
+    are as before (left at both places, a later removal of either detaches the element that the other place still shows, and the
+    document can no longer be written)"""
+    A, B, C = H.Key('a', 'A'), H.Key('b', 'B'), H.Key('c', 'C')
+    names = [A, B, A, C, A]
+    for target, occ, want in ((0, 1, ['a1', 'b0', 'c0', 'a2']), (0, 2, ['a2', 'b0', 'a1', 'c0']), (2, 0, ['b0', 'a1', 'c0', 'a0']), (1, 1, ['a0', 'b0', 'a1', 'c0', 'a2'])):
+        log = []
+        heap = mk_heap(src, log)
+        para, kvs, nodes = build_dup(heap, names)
+        value = H.Ref('@kv_a%d' % occ)
+        fn, it, clo, a = run_method(src, heap, para, DUP, 'set_kvpair_element', [key_arg(A, target), value])
+        rep.saw_func(fn)
+        what = 'set (A, %d) on [A B A C A] to the element of its occurrence %d' % (target, occ)
+        try:
+            it.call(clo, a)
+        except H.Raised as x:
+            rep.fail('C10.R5', fn.site, what, 'raises %s (line %d)' % (x.exc, x.lineno), where=fn.where)
+            continue
+        order, index, problems = read_dup(heap, para)
+        if order != want:
+            problems.append('fields are %s, reference model says %s (the element moves to the addressed place)%s' % (
+                order, want, ': the same element now stands at two places' if len(order) != len(set(order)) else ''))
+        if heap.objs[value.name]['parent_element'] != para:
+            problems.append('the element has the parent %r' % (heap.objs[value.name]['parent_element'],))
+        if problems:
+            rep.fail('C10.R5', fn.site, what, '; '.join(problems), where=fn.where)
+        else:
+            rep.ok('C10.R5', fn.site, what, '→ %s' % ' '.join(order))
+
+
 def r_nodup(rep, src):
     """the unique-field paragraph: order through OrderedSet, elements in a dict"""
     A, B, C, Z = H.Key('a', 'A'), H.Key('b', 'B'), H.Key('c', 'C'), H.Key('z', 'Z')
@@ -560,6 +592,42 @@ def r4_file_insert_append(rep, src):
                 else:
                     rep.ok('C10.R4', fn.site, what, 'layout %s' % s)
     rep.extra['file_cases'] = n
+    # a paragraph that already belongs to a document is refused by both operations at every position, with the document unchanged:
+    # placed a second time it would be listed twice (one later edit then changes two paragraphs of the dump, or two documents)
+    for owner in ('this document', 'another document'):
+        for op, idxs in (('append', [None]), ('insert', [0, 1, 2])):
+            for idx in idxs:
+                log = []
+                heap = mk_heap(src, log)
+                heap.hooks['.convert_to_text'] = lambda it_, args_, kw_: it_.h.objs[args_[0].name].get('text', '')
+                objs = [mk_para(heap, '@P1'), heap.alloc('Deb822WhitespaceToken', {'text': '\n', 'parent_element': None}), mk_para(heap, '@P2')]
+                lst, nodes = H.build_list(heap, objs)
+                f = heap.alloc('Deb822FileElement', {'_token_and_elements': lst, 'parent_element': None}, name='@file')
+                for o in objs:
+                    heap.objs[o.name]['parent_element'] = f
+                if owner == 'this document':
+                    new = objs[2]
+                else:
+                    new = mk_para(heap, '@FOREIGN')
+                    other = heap.alloc('Deb822FileElement', {'_token_and_elements': None, 'parent_element': None}, name='@other_file')
+                    heap.objs[new.name]['parent_element'] = other
+                args = [new] if op == 'append' else [idx, new]
+                fn, it, clo, a = run_method(src, heap, f, 'Deb822FileElement', op, args)
+                before = [nd.name for nd in H.read_list(heap, lst)[0]]
+                what = '%s(%sa paragraph of %s) is refused' % (op, '' if idx is None else '%d, ' % idx, owner)
+                try:
+                    it.call(clo, a)
+                    exc = None
+                except H.Raised as x:
+                    exc = x.exc
+                after = [nd.name for nd in H.read_list(heap, lst)[0]]
+                if exc == 'ValueError' and after == before:
+                    rep.ok('C10.R4', fn.site, what, 'ValueError, document unchanged')
+                else:
+                    rep.fail('C10.R4', fn.site, what, '%s: a paragraph that already belongs to %s is placed again%s (append refuses it; the same paragraph object then stands at two '
+                             'places, and one later edit changes both)' % ('no error' if exc is None else 'raises %s' % exc, owner,
+                                                                            '' if after == before else ', the document now has %d elements instead of %d' % (len(after), len(before))),
+                             where=fn.where)
 
 
 def r_sort(rep, src):
@@ -695,6 +763,7 @@ def check(src, rep, tier):
     rep.guard('C10.R1', r1_r2_dup_reorder, src)
     rep.guard('C10.R5', r5_dup_set_remove, src)
     rep.guard('C10.R5', r5b_replace_all_by_occurrence, src)
+    rep.guard('C10.R5', r5c_replace_one_by_occurrence, src)
     rep.guard('C10.R1', r_nodup, src)
     rep.guard('C10.R4', r4_file_insert_append, src)
     rep.guard('C10.R2', r_sort, src)
